@@ -351,6 +351,75 @@ def cross_case(ctx, h, tmp, fmt):
                     f'after a failed load ({raised}) of b.{fmt} an object of the previously loaded a.{fmt} changed: {diff[0]} -> {diff[1]}', rep)
 
 
+def schema_case(ctx, h, tmp, ncorr):
+    """the metamodel is not registered: the document names it through xsi:schemaLocation (an .ecore file next to it).  A
+    corrupted document of this kind must leave the registries as they were, too"""
+    from pyecore.resources import ResourceSet, URI, global_registry
+    rng = common.sub_rng(ctx.seed, 'C18', 'schema', h)
+    sub = os.path.join(tmp, f'schema{h}')
+    os.makedirs(sub, exist_ok=True)
+    try:
+        doc, pk = make_document(rng, h, sub, 'xmi')
+        rs = ResourceSet()
+        r = rs.create_resource(URI(os.path.join(sub, 'mm.ecore')))
+        r.append(pk)
+        r.save()
+        r.remove(pk)
+    except Exception:
+        ctx.count('schema/source-not-serializable')
+        return
+    text = doc.decode('utf-8')
+    m = re.search(r'<([A-Za-z_][\w.-]*:[A-Za-z_][\w.-]*)', text)
+    if not m:
+        return
+    head = m.end()
+    extra = f' xsi:schemaLocation="{pk.nsURI} mm.ecore"'
+    if 'xmlns:xsi=' not in text:
+        extra += ' xmlns:xsi="http://www.w3.org/2001/XMLSchema-instance"'
+    good = (text[:head] + extra + text[head:]).encode('utf-8')
+    path = os.path.join(sub, 'doc.xmi')
+    for label, data in [('valid', good)] + [('corrupted', b) for b in corruptions(rng, good, 'xmi', ncorr)]:
+        with open(path, 'wb') as fh:
+            fh.write(data)
+        rset = ResourceSet()
+        keep = rset.create_resource(URI(os.path.join(sub, 'keep.xmi')))
+        before_reg = sorted((k, id(v)) for k, v in rset.metamodel_registry.maps[0].items())
+        before_glob = sorted((k, id(v)) for k, v in global_registry.items())
+        before_res = {k: id(v) for k, v in rset.resources.items()}
+        signal.signal(signal.SIGALRM, _alarm)
+        signal.alarm(10)
+        raised = None
+        try:
+            rset.get_resource(URI(path))
+        except Hang:
+            raised = 'HANG'
+        except RecursionError:
+            raised = 'RecursionError'
+        except Exception as e:
+            raised = type(e).__name__
+        finally:
+            signal.alarm(0)
+        ctx.evaluations += 1
+        ctx.count(f'schema/{label}/' + ('raised' if raised else 'loaded'))
+        rep = {'case': h, 'format': 'xmi', 'kind': 'schemaLocation-' + label, 'document': data.decode('utf-8', 'replace')[:3000]}
+        if raised == 'HANG':
+            ctx.violate({'clause': 'hang', 'format': 'xmi'}, 'get_resource did not return within 10 s on a document with xsi:schemaLocation', rep)
+            continue
+        if not raised:
+            continue
+        ctx.nontriv((h, 'schema', len(data), hash(data) % 9973))
+        what = None
+        if sorted((k, id(v)) for k, v in rset.metamodel_registry.maps[0].items()) != before_reg:
+            what = 'metamodel registry of the resource set'
+        elif sorted((k, id(v)) for k, v in global_registry.items()) != before_glob:
+            what = 'global registry'
+        elif URI(path).normalize() in rset.resources or any(rset.resources.get(k) is None or id(rset.resources[k]) != v for k, v in before_res.items()):
+            what = 'resources'
+        if what:
+            ctx.violate({'clause': 'trace-after-failure', 'format': 'xmi', 'what': what},
+                        f'after a failed load ({raised}) of a document whose metamodel is named by xsi:schemaLocation only, the {what} changed', rep)
+
+
 def run_case(ctx, h, tmp, nprefix, ncorr):
     rng = common.sub_rng(ctx.seed, 'C18', h)
     fmt = 'xmi' if h % 2 == 0 else 'json'
@@ -389,6 +458,7 @@ def run(ctx):
             run_case(ctx, h, tmp, nprefix, ncorr)
             cross_case(ctx, h, tmp, 'xmi' if h % 2 == 0 else 'json')
             cross_case(ctx, h, tmp, 'json' if h % 2 == 0 else 'xmi')
+            schema_case(ctx, h, tmp, max(10, ncorr // 4))
     finally:
         shutil.rmtree(tmp, ignore_errors=True)
     ctx.assumptions += ['termination of lxml / json parsing itself is trusted (watchdog only)',
